@@ -71,6 +71,14 @@ def gen(ctx):
         seen.add(key)
         cfg = dict(scs[si - 1], scen=si, peers=PEERS, model=impl)
         out.append({"id": len(out), "cfg": cfg, "steps": [s for s in h if s["act"] == "step"], "expect": h[-1]})
+    # model-independent schedules (vf.blind_schedules): interleavings the model of the current code never enables
+    nb = 250 if quick else 4000
+    for si, sc in enumerate(scs):
+        threads = ["upd"] + sorted(sc["waiters"]) + (["cancel"] if sc["cancel"] else [])
+        for seq in vf.blind_schedules(ctx.rng, threads, nb, 14 + 8 * len(threads)):
+            out.append({"id": len(out), "cfg": dict(sc, scen=si + 1, peers=PEERS, model="blind"),
+                        "steps": [{"act": "step", "d": t} for t in seq], "expect": {}})
+    ctx.extra["blind_schedules"] = nb * len(scs)
     return out
 
 
@@ -86,7 +94,80 @@ def overlay(ctx):
     return ov, skel
 
 
+NU_MON = ("MonNotifyUser", "Mon_NotifyUser.cfg")
+
+
+def nu_scenarios(tier):
+    s = [dict(kind="lifecycle", ops=[1, 0], waiters=["w1"], calls=2, cancel=False),
+         dict(kind="lifecycle", ops=[1], waiters=["w1", "w2"], calls=1, cancel=True),
+         dict(kind="lifecycle", ops=[1, 1, 0], waiters=["w1"], calls=2, cancel=False),
+         dict(kind="peercache", ops=[1, 2], waiters=["w1"], calls=2, cancel=False),
+         dict(kind="peercache", ops=[1, 1, 2], waiters=["w1", "w2"], calls=1, cancel=False),
+         dict(kind="peercache", ops=[1], waiters=["w1"], calls=1, cancel=True)]
+    if tier != "quick":
+        s += [dict(kind="lifecycle", ops=[1, 0, 1], waiters=["w1", "w2"], calls=2, cancel=False),
+              dict(kind="peercache", ops=[1, 2, 3], waiters=["w1", "w2"], calls=2, cancel=True)]
+    return s
+
+
+def nu_tla(s):
+    return '[kind |-> "%s", ops |-> <<%s>>, waiters |-> {%s}, calls |-> %d, cancel |-> %s]' % (
+        s["kind"], ", ".join(str(v) for v in s["ops"]), ", ".join('"%s"' % w for w in s["waiters"]), s["calls"], "TRUE" if s["cancel"] else "FALSE")
+
+
+def run_notify_users(ctx):
+    """the lifecycle manager and the peer cache: same notify primitive, same harness (specs/NotifyUser.tla)"""
+    quick = ctx.tier == "quick"
+    scs = nu_scenarios(ctx.tier)
+    defs = {"Scenarios": "<<" + ", ".join(nu_tla(s) for s in scs) + ">>"}
+    ctx.tlc_expect_ok("NotifyUser", "MC_NotifyUser.cfg", name="mc_notifyuser", defs=defs, workers=4, timeout=900)
+    g = ctx.tlc("NotifyUser", "Gen_NotifyUser.cfg", name="sim_notifyuser", defs=defs, workers=1,
+                simulate="num=%d" % (1200 if quick else 12000), depth=200, timeout=1500, heap="8g")
+    seen, scripts = set(), []
+    for h in g.printed.get("SCRIPT", []):
+        si = h[-1]["si"]
+        key = json.dumps([si, [x["d"] for x in h if x["act"] == "step"]])
+        if key in seen:
+            continue
+        seen.add(key)
+        scripts.append({"id": len(scripts), "cfg": dict(scs[si - 1], scen=si), "steps": [x for x in h if x["act"] == "step"]})
+    nb = 150 if quick else 2500
+    for si, sc in enumerate(scs):
+        threads = ["upd"] + sorted(sc["waiters"]) + (["cancel"] if sc["cancel"] else [])
+        for seq in vf.blind_schedules(ctx.rng, threads, nb, 12 + 8 * len(threads)):
+            scripts.append({"id": len(scripts), "cfg": dict(sc, scen=si + 1), "steps": [{"act": "step", "d": t} for t in seq]})
+    cap = 3000 if quick else 40000
+    for kind, pkg, files, src, drv in (("lifecycle", "pkg/lifecycle", ["vf_lifecycle_verif_test.go"], "pkg/lifecycle/manager.go", "^TestVerifLifecycleSched$"),
+                                       ("peercache", "pkg/tinder", ["vf_peercache_verif_test.go"], "pkg/tinder/peer_cache.go", "^TestVerifPeerCacheSched$")):
+        mine = [s for s in scripts if s["cfg"]["kind"] == kind]
+        if len(mine) > cap:
+            mine = ctx.rng.sample(mine, cap)
+        rep, _ = ctx.instrument([src, "internal/notify/notify.go"])
+        ov = ctx.overlay({pkg: files}, replace=rep)
+        binary = ctx.go_test_compile(pkg, ov, name=kind)
+        events = ctx.run_sharded(binary, drv, pkg, mine, kind, shards=4)
+        byid = {s["id"]: s for s in mine}
+        acc, rejects = vf.validate_blocks(ctx, NU_MON, events, kind)
+        ctx.evaluations += len(mine)
+        blocks = dict(vf.split_traces(events))
+        ctx.distinct_nontrivial += len(set(json.dumps([[e.get("t"), e.get("to")] for e in evs if e["ev"] == "step"]) for evs in blocks.values()
+                                           if any(str(e.get("to", "")).startswith("blocked") for e in evs if e["ev"] == "step")))
+        for rj in rejects:
+            sc = byid[rj["id"]]
+            line = rj["info"].get("line", {})
+            sched = " ".join(x["d"] for x in sc["steps"])
+            if line.get("ev") == "final" and line.get("atgate"):
+                key, what = "deadlock:%s" % kind, "%s deadlock: %s wait for a lock forever (schedule %s)" % (kind, line.get("atgate"), sched)
+            elif line.get("ev") == "final" and line.get("parked"):
+                key, what = "missed-update:%s" % kind, "%s missed update: %s parked with a pending change %s (schedule %s)" % (kind, line.get("parked"), line.get("pending"), sched)
+            else:
+                key, what = "%s:%s" % (kind, json.dumps(line, sort_keys=True)[:160]), "%s breaks C16 at step %s: %s" % (kind, rj["at"], json.dumps(line, sort_keys=True)[:300])
+            ctx.classify(key, what, {"script": sc, "observed": rj["events"], "rejected_line": line, "family": kind})
+
+
 def run(ctx, replay=None):
+    if replay and json.load(open(replay)).get("family") in ("lifecycle", "peercache"):
+        raise vf.Infra("replay of lifecycle/peercache findings: re-run the check (schedules are regenerated from the seed)")
     ov, skel = overlay(ctx)
     if replay:
         scripts = [json.load(open(replay))["script"]]
@@ -132,6 +213,8 @@ def run(ctx, replay=None):
     for s in scripts[:1]:
         ctx.add_samples([{"scenario": {k: s["cfg"][k] for k in ("ops", "waiters", "calls", "cancel")},
                           "schedule": [x["d"] for x in s["steps"]], "observed_final": blocks.get(s["id"], [])[-1:]}], limit=2)
+    if not replay:
+        run_notify_users(ctx)
     ctx.assumptions += ["interleavings are explored at lock acquisitions and at the select of Notify.Wait only",
                         "the tracker is compiled from an instrumented copy of the current connectedness_manager.go in a scratch package"]
     return ctx.finish(level="model_checking",
